@@ -1118,6 +1118,12 @@ def simp(v):
                 parts.append(v[1])
             parts.extend(e[1] if e[0] == "fstr" else [e])
         return flatten_fstr(("fstr", tuple(parts)))
+    # list concatenation with a list display: [a, b] + L == [a, b, *L],  L + [a] == [*L, a]  (the other operand of `+` must be a list
+    # too, or the expression raises)
+    if k == "binop" and v[1] == "Add" and (v[2][0] == "list" or v[3][0] == "list") and not is_str(v[2]) and not is_str(v[3]):
+        left = v[2][1] if v[2][0] == "list" else (("star", v[2]),)
+        right = v[3][1] if v[3][0] == "list" else (("star", v[3]),)
+        return ("list", tuple(left) + tuple(right))
     if k == "binop" and v[1] == "Add" and is_str(v[2]) and is_str(v[3]):
         def parts(x):
             if x[0] == "fstr":
